@@ -214,6 +214,24 @@ def gen_cases(rng, tier):
     # cross-dimension stream: every dimension of the SP model varied at once
     for _ in range(150 if tier == "quick" else 4000):
         yield C.random_full(rng, PROP)
+    for _ in range(60 if tier == "quick" else 1500):
+        yield C.via_entry(C.random_full(rng, PROP), "response_factory")
+
+    # extension <Condition> elements (condition_ok): entry point x configured schemas x condition types; the understood
+    # ones crossed with the window sweeps of the Conditions element (an understood extension condition must not displace
+    # the time tests, nor the reported expiry)
+    def vary_window(c, rng):
+        skew = rng.choice([None, 0, 60, 180])
+        if skew is not None:
+            c["cfg"]["skew"] = skew
+        for stamp in rng.sample(["c_nb", "c_nooa", "c_nooa", "sc_nooa", "sess"], rng.choice([1, 1, 2])):
+            off = rng.choice(offsets(skew)[:14])
+            place(c, stamp, off)
+            c["tag"] += "/%s%s" % (stamp, off)
+        c["syntax"] = rng.choice(["z", "z", "frac", "frac7"])
+        c["env"]["time_form"] = F.time_form(c["syntax"])
+
+    yield from C.extension_cases(rng, PROP, tier, vary_window)
 
 
 def finding_key(case, impl, lean):
